@@ -436,19 +436,58 @@ func checkErrGuardedUse(c *core.Ctx, r *core.Report, rule string, call *ssa.Call
 		r.Violation(rule, construct, c.Pos(call.Pos()), "the error result of "+what+" is discarded — "+why)
 		return
 	}
-	for _, o := range others {
-		refs := o.Referrers()
-		if refs == nil {
-			continue
+	// guarded(v, e): every use of v lies where e is known nil.  A phi uses v on the edges it arrives by
+	// (`if err == nil { x = v }` merges v in only from the block where the error is known nil); and where v and e
+	// are merged side by side (`x, xerr = fast(); if !ok { x, xerr = convert() }` gives a phi of the values and a
+	// phi of the errors over the same edges) the uses of the merged value are judged against the merged error.
+	var guarded func(v, e ssa.Value, depth int) ssa.Instruction
+	guarded = func(v, e ssa.Value, depth int) ssa.Instruction {
+		refs := v.Referrers()
+		if refs == nil || depth > 3 {
+			return nil
 		}
 		for _, u := range *refs {
 			if _, isDbg := u.(*ssa.DebugRef); isDbg {
 				continue
 			}
-			if core.NilnessAt(errv, u.Block()) != core.Yes {
-				r.Violation(rule, construct, c.Pos(u.Pos()), fmt.Sprintf("result of %s is used where its error is not known to be nil — %s", what, why))
-				return
+			if phi, isPhi := u.(*ssa.Phi); isPhi {
+				okAll := true
+				for i, ed := range phi.Edges {
+					if ed != v {
+						continue
+					}
+					if core.NilnessAt(e, phi.Block().Preds[i]) == core.Yes {
+						continue
+					}
+					// a sibling phi carrying the error over the same edge
+					var pe *ssa.Phi
+					for _, in := range phi.Block().Instrs {
+						q, isQ := in.(*ssa.Phi)
+						if !isQ {
+							break
+						}
+						if q != phi && i < len(q.Edges) && q.Edges[i] == e {
+							pe = q
+						}
+					}
+					if pe == nil || guarded(phi, pe, depth+1) != nil {
+						okAll = false
+					}
+				}
+				if okAll {
+					continue
+				}
 			}
+			if core.NilnessAt(e, u.Block()) != core.Yes {
+				return u
+			}
+		}
+		return nil
+	}
+	for _, o := range others {
+		if u := guarded(o, errv, 0); u != nil {
+			r.Violation(rule, construct, c.Pos(u.Pos()), fmt.Sprintf("result of %s is used where its error is not known to be nil — %s", what, why))
+			return
 		}
 	}
 	r.OK(rule, construct, c.Pos(call.Pos()), "all uses dominated by the err == nil edge")
